@@ -35,7 +35,7 @@ logging.getLogger("aiohttp.access").disabled = True
 logging.getLogger("aiohttp.web").disabled = True
 
 OK_KINDS = ("ret", "yield", "sleep", "read_body", "ignore_body", "stream", "stream_cl", "payload", "aiter")
-STATUS = {"http_exc": {403}, "exc": {500}, "timeout": {504}, "non_response": {500}, "partial_raise": {200}, "partial_timeout": {200},
+STATUS = {"prepare_fails": {500}, "http_exc": {403}, "exc": {500}, "timeout": {504}, "non_response": {500}, "partial_raise": {200}, "partial_timeout": {200},
           "partial_http_exc": {200}, "prepared_raise": {200}, "prepared_timeout": {200}, "prepared_http_exc": {200}}
 FAILS_AFTER_HEAD = ("partial_raise", "partial_timeout", "partial_http_exc", "prepared_raise", "prepared_timeout", "prepared_http_exc")
 
@@ -165,6 +165,17 @@ def execute(case: dict) -> dict:
                 raise RuntimeError("boom")
             elif kind == "timeout":
                 raise asyncio.TimeoutError()
+            elif kind == "prepare_fails":
+                # a response whose preparation fails after the writer was set up for it (chunking, compression): the 500 that
+                # goes out instead must be a well-formed message of its own
+                resp = web.StreamResponse(headers=hdr)
+                resp.enable_chunked_encoding()
+                if r.get("k", 0) % 2:
+                    resp.enable_compression()
+                resp.headers["X-Bad"] = "a\r\nInjected: 1"
+                await resp.prepare(request)
+                await resp.write(b"never")
+                return resp
             elif kind == "non_response":
                 return None if r.get("k", 0) % 2 == 0 else "string"
             elif kind == "read_body":
@@ -394,7 +405,7 @@ def execute(case: dict) -> dict:
                 if kind == "read_body" and not is_head and r.body != f"r{who}:{reqs[who].get('n', 0) if reqs[who].get('body', 'none') != 'none' else 0}".encode():
                     raise Violation("request-body-length", f"request {who}: handler saw {r.body!r}")
         # malformed input is the client's error: no 5xx unless a handler of this pipeline fails by itself
-        if not any(r.get("h") in ("exc", "non_response", "timeout") + FAILS_AFTER_HEAD for r in reqs):
+        if not any(r.get("h") in ("exc", "non_response", "timeout", "prepare_fails") + FAILS_AFTER_HEAD for r in reqs):
             bad5 = [x.status for x in finals if x.status >= 500]
             if bad5:
                 raise Violation("client-error-answered-5xx", f"statuses {[x.status for x in finals]}: a 5xx although no handler fails by itself "
@@ -462,7 +473,7 @@ def body(rec: Rec, case: dict) -> None:
 
 # ------------------------------------------------------------------ generators
 HANDLERS = ["ret", "ret", "ret", "yield", "sleep", "http_exc", "exc", "timeout", "non_response", "read_body", "ignore_body", "stream", "stream_cl",
-            "partial_raise", "partial_timeout", "payload", "aiter", "partial_http_exc", "prepared_raise", "prepared_timeout", "prepared_http_exc"]
+            "partial_raise", "partial_timeout", "payload", "aiter", "partial_http_exc", "prepared_raise", "prepared_timeout", "prepared_http_exc", "prepare_fails"]
 
 
 @st.composite
@@ -486,7 +497,7 @@ def cases(draw, deep: bool = False, with_bad: bool = False):
             r["k"] = draw(st.integers(1, 4))
         if h == "sleep":
             r["t"] = draw(st.sampled_from([0.5, 11.0, 20.0]))
-        if h == "non_response":
+        if h in ("non_response", "prepare_fails"):
             r["k"] = draw(st.integers(0, 1))
         if bk == "none" and i == n - 1 and draw(st.integers(0, 4)) == 0:
             r["close"] = True
